@@ -131,6 +131,38 @@ def run(ctx):
                 ctx.counterexample('a raising on_validate_file for %r: yielded %r, expected on_error then on_skip values in place' % (target, got[:6]), {'target': target})
             if w.get_skipped() != w0.get_skipped() + (1 if ('M', target) in full else 0):
                 ctx.counterexample('skipped counter wrong after a raising hook', {'target': target})
+        # a raising hook in the middle of a directory with several matches: the raising file - wherever it comes in the listing,
+        # whatever happened to the file before it - is reported by on_error and routed to on_skip, everything else unchanged
+        with trees.Tree([('a.txt', 'f', None), ('b.txt', 'f', None), ('c.txt', 'f', None), ('d.log', 'f', None), ('e.txt', 'f', None),
+                         ('s', 'd', None), ('s/f.txt', 'f', None), ('s/g.log', 'f', None), ('s/h.txt', 'f', None)]) as TR:
+            class RecK(Rec):
+                def on_init(self, **kw):
+                    self.log = []
+                    self.boom = None
+                    self.k = kw.get('k')
+                    self.calls = 0
+
+                def on_validate_file(self, base, name):
+                    self.calls += 1
+                    self.log.append(('validate', name))
+                    if self.calls == self.k:
+                        self.raised = name
+                        raise RuntimeError('boom')
+                    return True
+            wk0 = RecK(TR.root, '*.txt', flags=WM.RECURSIVE, k=0)
+            fullk = wk0.match()
+            for k in range(1, wk0.calls + 1):
+                evals += 1
+                wk = RecK(TR.root, '*.txt', flags=WM.RECURSIVE, k=k)
+                gotk = wk.match()
+                tgt = wk.raised
+                expk = []
+                for v in fullk:
+                    expk += [('E', tgt), ('S', tgt)] if v[1] == tgt else [v]
+                if gotk != expk or wk.get_skipped() != wk0.get_skipped() + (1 if ('M', tgt) in fullk else 0):
+                    ctx.counterexample('on_validate_file raising at its call %d (file %r): yielded %r, expected %r; skipped %d' % (k, tgt, gotk, expk, wk.get_skipped()),
+                                       {'call': k, 'file': tgt, 'got': [list(x) for x in gotk], 'expected': [list(x) for x in expk]})
+                    break
         # a run starts when its iterator is first advanced, not when imatch() is called: iterators obtained early
         w = Rec(T.root, '*.txt', flags=WM.RECURSIVE)
         one_run = None
